@@ -25,7 +25,7 @@ impl StreamId {
 //@ splice-fn quic/s2n-quic-core/src/stream/id.rs "StreamId" initial vis=strip "subst=endpoint::Type=>EndpointType"
 //@| ensures ret.0.0 == type_bits(initiator, stream_type),
 
-//@ splice-fn quic/s2n-quic-core/src/stream/id.rs "StreamId" nth vis=strip "subst=initial.into()=>initial.0.as_u64();;endpoint::Type=>EndpointType"
+//@ splice-fn quic/s2n-quic-core/src/stream/id.rs "StreamId" nth vis=strip "subst=initial.into()=>initial.0.as_u64()@@endpoint::Type=>EndpointType"
 //@| ensures
 //@|     4 * n + type_bits(initiator, stream_type) <= MAX_VARINT_VALUE ==> ret is Some && ret->Some_0.0.0 == 4 * n + type_bits(initiator, stream_type),
 //@|     4 * n + type_bits(initiator, stream_type) > MAX_VARINT_VALUE ==> ret is None,
